@@ -283,6 +283,8 @@ Proof.
     specialize (IHp Hwf Hat (SDict l) drop HD').
     rewrite <- (verd_stat_eq _ _ _ _ (eq_trans (map_stat_abs _) (eq_trans (f_equal (map astat) C1) (eq_sym (map_stat_abs _))))), <- C2.
     exact IHp.
+  - (* Ren *)
+    cbn [build obs_build wave] in *. cbn [wf] in Hwf. apply IHp; auto.
 Qed.
 
 Definition meas_at_ok (p : pt) : Prop :=
@@ -308,6 +310,8 @@ Proof.
     destruct (atomic_coincidence p Hwf (lookup (SDict l)) (map_env (lookup s) m) drop) as [C1 [C2 C3]].
     { eapply eager_agree; eauto. apply subset_in; auto. }
     rewrite <- (verd_stat_eq _ _ _ _ C3). eapply IHp; eauto.
+  - (* Ren *)
+    cbn [meas_at obs_meas]. cbn [wf] in Hwf. cbn [build] in Hb. eapply IHp; eauto.
 Qed.
 
 (* ------------------------------------------------------------------------------------------------------------ *)
@@ -381,6 +385,8 @@ Proof.
     cbn [run obs plays] in *. rewrite verd_app. eapply bind_ref; [apply validate_ref|]. cbn [wf] in Hwf.
     apply fdev_app in HD as [_ HD].
     apply (IHp (proj2 Hwf) (SMapped s m) drop). exact HD.
+  - (* Ren *)
+    cbn [run obs plays] in *. cbn [wf] in Hwf. apply IHp; auto.
 Qed.
 End Ref.
 
